@@ -32,7 +32,7 @@ def _vec(fname, i):
 
 
 def extra_builds(tier):
-    return [("relchk", None), ("sse41", _vec), ("avx", _vec), ("native", _vec)]
+    return [("relchk", None), ("sse41", _vec), ("avx", _vec), ("native", _vec), ("fe32", None)]
 
 
 
